@@ -21,6 +21,7 @@ import vlib
 
 PID = "C20"
 KNOWN = "C20-file-validated-alone"
+KNOWN_RETYPED = "C20-env-value-retyped"
 EXTRACTOR = os.path.join(vlib.VERIF, "extract", "config_schema", "extract.py")
 GEN_FILE = os.path.join(vlib.LEAN, "HeimdallModel", "Gen", "ConfigSchema.lean")
 
@@ -439,16 +440,200 @@ def probe_option(exe, path, key, ignored=False):
 
 
 # ---------------------------------------------------------------------------------------------------------------
+# stream 5: values. Every value shape for every leaf type from the file (as the schema demands it) and from the
+# environment (plain spelling), real typed decoding vs Lean `decode`, and the spec "same leaf from both sources"
+
+LEAF_DEFAULT = {"string": "", "int": 0, "bool": False, "text": "0s"}
+
+
+def leaf_expect(typ, leaf):
+    """what the harness shows for a model leaf (None: the model does not say)"""
+    if leaf == "unsupported" or isinstance(leaf, dict):
+        return None
+    if leaf == "zero":
+        return LEAF_DEFAULT[typ]
+    return leaf
+
+
+def leaf_field(r, field):
+    if isinstance(r, list) and len(r) == 1:
+        r = r[0]
+        if isinstance(r, dict):
+            return r.get(field, "")       # the optional pointer field: unset = empty
+        return r
+    return {"outcomes": r}
+
+
+def leaf_stream(R, exe, quads):
+    st = collections.Counter()
+    raws = sorted({e[0][1] for _, _, _, _, e in ((t, f, v, fc, ec["env"]) for t, f, v, fc, ec in quads)})
+    ys = vlib.run_cases([exe], [{"fam": "config", "op": "yaml", "raw": raws}])[0]
+    if not isinstance(ys, list) or len(ys) != len(raws):
+        R.violation("values stream: the harness does not report YAML readings", {"impl": ys}, no_input=True)
+        return st, set()
+    reading = dict(zip(raws, ys))
+    icases, mcases = [], []
+    for typ, field, v, fc, ec in quads:
+        icases += [fc, ec]
+        y = reading[ec["env"][0][1]]
+        mcases.append({"fam": "config", "op": "leaf", "type": typ, "scalar": y, "value": v})
+    impl = run_parallel([exe], icases)
+    model = vlib.run_cases(vlib.driver_cmd(), mcases)
+    nontriv = set()
+    shown = 0
+    for k, (typ, field, v, fc, ec) in enumerate(quads):
+        fi, ei = leaf_field(impl[2 * k], field), leaf_field(impl[2 * k + 1], field)
+        m = model[k]
+        st["value_cases"] += 1
+        if not isinstance(m, dict) or "res" not in m:
+            st["model_skipped"] += 1          # a reading outside the model (collection, timestamp)
+            continue
+        me, mf = leaf_expect(typ, m["res"]), leaf_expect(typ, m["stats"]["file"])
+        faithful = m["stats"]["faithful"]
+        raw = ec["env"][0][1]
+        y = reading[raw]
+        if y != raw:
+            nontriv.add((typ, field, raw))
+        payload = {"kind": "leaf", "type": typ, "field": field, "value": v, "file_case": fc, "env_case": ec,
+                   "yaml_reading": y, "impl_file": fi, "impl_env": ei, "model_env": m["res"], "model_file": m["stats"]["file"]}
+        bad = None
+        if typ != "text":
+            if mf is not None and fi != mf:
+                bad = f"the file value {json.dumps(v)} of a {typ} property arrives as {json.dumps(fi)}, the decoding model says {json.dumps(mf)}"
+            elif me is not None and ei != me:
+                bad = (f"the environment value {raw} (YAML reads {json.dumps(y)}) of a {typ} property arrives as "
+                       f"{json.dumps(ei)}, the decoding model says {json.dumps(me)}")
+        if bad is None and ei != fi:
+            if typ == "string" and not faithful and me is not None and ei == me:
+                st["known_retyped"] += 1
+                R.known_hits[KNOWN_RETYPED] = R.known_hits.get(KNOWN_RETYPED, 0) + 1
+            else:
+                bad = (f"{typ} property: the file value {json.dumps(v)} gives {json.dumps(fi)}, its plain spelling {raw} "
+                       f"in the environment gives {json.dumps(ei)}")
+        elif bad is None:
+            st["equal_" + typ] += 1
+            if me is None:
+                st["model_silent"] += 1
+        if bad is not None:
+            st["violations"] += 1
+            if shown < 4:
+                shown += 1
+                R.violation("values stream: " + bad, payload)
+    return st, nontriv
+
+
+# ---------------------------------------------------------------------------------------------------------------
+# stream 6: histories. Several NewConfiguration loads in ONE process; every result must be what the same load gives
+# as the first load of a fresh process (the model is a function of file + environment, `c20_history_independent`),
+# and a configuration returned earlier must not change by later loads
+
+def fresh_results(exe, loads, workers=6):
+    out = [None] * len(loads)
+
+    def work(k):
+        for i in range(k, len(loads), workers):
+            r = vlib.run_cases([exe], [{"fam": "config", "op": "history", "loads": [loads[i]]}])[0]
+            out[i] = r["then"][0] if isinstance(r, dict) and "then" in r else {"crash": r}
+    ths = [threading.Thread(target=work, args=(k,)) for k in range(workers)]
+    for t in ths:
+        t.start()
+    for t in ths:
+        t.join()
+    return out
+
+
+def history_verdict(exe, h):
+    """None, or (description, index)"""
+    r = vlib.run_cases([exe], [h])[0]
+    if not (isinstance(r, dict) and "then" in r):
+        return ("the harness fails on a history: " + json.dumps(r)[:200], 0, r, None)
+    fresh = fresh_results(exe, h["loads"])
+    for i, (t, f) in enumerate(zip(r["then"], fresh)):
+        if vlib.canon(t) != vlib.canon(f):
+            d = leaf_delta(f, t) if isinstance(t, dict) and isinstance(f, dict) else [f if isinstance(f, str) else "tree", t if isinstance(t, str) else "tree"]
+            return (f"load {i + 1} of a process gives another configuration than the same load in a fresh process "
+                    f"(what earlier loads defined shows up): [path, fresh, in history] {json.dumps(d)[:300]}", i, r, fresh)
+    for i, (t, n) in enumerate(zip(r["then"], r["now"])):
+        if vlib.canon(t) != vlib.canon(n):
+            d = leaf_delta(t, n) if isinstance(t, dict) and isinstance(n, dict) else []
+            return (f"the configuration returned by load {i + 1} changed while later configurations were loaded: "
+                    f"[path, then, now] {json.dumps(d)[:300]}", i, r, fresh)
+    return None
+
+
+def history_shrink(exe, h):
+    def fails(loads):
+        return bool(loads) and history_verdict(exe, dict(h, loads=loads)) is not None
+    loads = vlib.ddmin(h["loads"], fails)
+    # shrink the environment and the file of every load
+    for i in range(len(loads)):
+        def fails_env(env, i=i):
+            l2 = copy.deepcopy(loads)
+            l2[i]["env"] = env
+            return fails(l2)
+        if len(loads[i].get("env", [])) > 1:
+            loads[i]["env"] = vlib.ddmin(loads[i]["env"], fails_env)
+        if "file" in loads[i]:
+            tree = json.loads(loads[i]["file"])
+            ls = list(gen_config.leaves(tree))
+
+            def fails_file(sub, i=i):
+                if not sub:
+                    return False
+                l2 = copy.deepcopy(loads)
+                l2[i]["file"] = json.dumps(gen_config.build(sub))
+                return fails(l2)
+            if len(ls) > 1 and fails_file(ls):
+                loads[i]["file"] = json.dumps(gen_config.build(vlib.ddmin(ls, fails_file)))
+    return dict(h, loads=loads)
+
+
+def history_stream(R, exe, hs):
+    st = collections.Counter()
+    nontriv = set()
+    out = run_parallel([exe], hs, workers=4)
+    all_loads = [l for h in hs for l in h["loads"]]
+    fresh = fresh_results(exe, all_loads)
+    pos = 0
+    shown = 0
+    for h, r in zip(hs, out):
+        k = len(h["loads"])
+        fr = fresh[pos:pos + k]
+        pos += k
+        st["histories"] += 1
+        st["history_loads"] += k
+        ok = isinstance(r, dict) and "then" in r and all(vlib.canon(a) == vlib.canon(b) for a, b in zip(r["then"], fr)) \
+            and all(vlib.canon(a) == vlib.canon(b) for a, b in zip(r["then"], r["now"]))
+        if ok:
+            if sum(1 for l in h["loads"] if "cache" in (l.get("file") or "") or any(e[0].startswith("CACHE_CONFIG") for e in l["env"])) >= 1 \
+                    and len({vlib.canon(t) for t in r["then"]}) >= 2:
+                nontriv.add(vlib.case_hash(h))
+            st["loads_failing_alike"] += sum(1 for t in r["then"] if isinstance(t, str))
+            continue
+        st["violations"] += 1
+        if shown < 2:
+            shown += 1
+            sh = history_shrink(exe, h)
+            v = history_verdict(exe, sh) or history_verdict(exe, h)
+            if v is None:
+                sh, v = h, ("a history differs from fresh loads (not reproduced on a second run)", 0, r, fr)
+            R.violation("history stream: " + v[0], {"kind": "history", "case": sh, "impl_history": v[2], "impl_fresh": v[3]})
+    return st, nontriv
+
+
+# ---------------------------------------------------------------------------------------------------------------
 # corpus
 
 def corpus_cases():
-    loads, groups = [], []
+    loads, groups, hists = [], [], []
     for c in vlib.load_corpus(PID):
         if c.get("kind") == "load":
             loads.append(c["case"])
         elif c.get("kind") == "cfg":
             groups.append(c)
-    return loads, groups
+        elif c.get("kind") == "history":
+            hists.append(c["case"])
+    return loads, groups, hists
 
 
 def corpus_groups(R, exe, groups, st):
@@ -467,6 +652,18 @@ def corpus_groups(R, exe, groups, st):
             v = l2_verdict(base, r, va)
             if v not in ("ok",):
                 R.violation(f"corpus {g.get('name', '')}: " + (v if v != "known" else "file part rejected"),
+                            {"kind": "cfg", "config": cfg, "case": case, "impl_complete_file": base, "impl_split": r})
+        elif exp == "retyped":
+            if not is_tree(base):
+                R.violation("corpus: the complete file no longer loads: " + g.get("name", ""),
+                            {"kind": "cfg-base", "config": cfg, "impl_file": base})
+            elif vlib.canon(r) == vlib.canon(base):
+                st["corpus_retyped_now_equal"] += 1     # the finding is gone: fine for the property
+            elif is_tree(r) and sorted(map(vlib.canon, leaf_delta(base[0], r[0], 50))) == sorted(map(vlib.canon, g["retyped"])):
+                R.known_hits[KNOWN_RETYPED] = R.known_hits.get(KNOWN_RETYPED, 0) + 1
+                st["corpus_known_retyped"] += 1
+            else:
+                R.violation(f"corpus {g.get('name', '')}: " + l2_verdict(base, r, va),
                             {"kind": "cfg", "config": cfg, "case": case, "impl_complete_file": base, "impl_split": r})
         elif exp == "known":
             v = l2_verdict(base, r, va) if is_tree(base) else "base fails"
@@ -501,7 +698,7 @@ def run(R):
         R.violation("the model driver does not build", {"lean_log": getattr(R, "lean", {}).get("log", "")[-3000:]},
                     no_input=True)
         return
-    loads, groups = corpus_cases()
+    loads, groups, hists = corpus_cases()
     n1 = 2000 if quick else 40000
     n2 = 100 if quick else 1200
     cases = loads + [gen_config.gen_load_case(R.rng) for _ in range(n1)]
@@ -510,9 +707,13 @@ def run(R):
     st2, nt2, sample2 = l2_stream(R, exe, n2, required)
     corpus_groups(R, exe, groups, st2)
     st3 = schema_stream(R, exe, facts) if facts is not None else collections.Counter()
+    st4, nt4 = leaf_stream(R, exe, gen_config.leaf_cases())
+    n5 = 40 if quick else 400
+    st5, nt5 = history_stream(R, exe, hists + [gen_config.gen_history(R.rng) for _ in range(n5)])
     R.coverage.update({
-        "evaluations": n_l1 + st2["loads"] + st2["groups"] + 2 * st3["types_checked"],
-        "distinct_nontrivial": len(nt1) + len(nt2),
+        "evaluations": n_l1 + st2["loads"] + st2["groups"] + 2 * st3["types_checked"] + 2 * st4["value_cases"]
+                       + 2 * st5["history_loads"],
+        "distinct_nontrivial": len(nt1) + len(nt2) + len(nt4) + len(nt5),
         "rule": "tree stream: a random configuration tree (maps, lists of scalars, lists of structures, nested lists; "
                 "scalars incl. strings that need quoting) whose leaves are distributed over defaults / file / "
                 "environment with overlaps and conflicting values, variables named by the documented rule (some in "
@@ -523,7 +724,14 @@ def run(R):
                 "rule, providers) loaded by the real NewConfiguration from the complete file and from 6 file/environment "
                 "splits (all-env, override with conflicting values, optional leaves, random halves, list leaves); "
                 "non-trivial = a split equal to the complete file whose environment part reaches into a list; "
-                "distinct by hash of the case",
+                "distinct by hash of the case. values stream: every value shape (number-, bool-looking, non-canonical numerals, "
+                "ordinary) for string / int / bool / duration leaves (top level, nested, pointer) from the file and in plain "
+                "spelling from the environment through the real typed decoding, compared with Lean `decode` and with each other; "
+                "non-trivial = YAML reads the spelling as something else than the text. history stream: 3-4 NewConfiguration "
+                "loads (file / environment / override, cache.config leaves, services, mechanisms) in one process, every result "
+                "compared with the same load in a fresh process and re-inspected after the later loads; non-trivial = a "
+                "load defines cache.config leaves and the loads give different configurations",
+        "value_stats": dict(st4), "history_stats": dict(st5),
         "tree_cases": n_l1, "tree_stats": dict(st1), "tree_disagreements": bad1,
         "typed_stats": dict(st2), "schema_stats": dict(st3),
         "corpus_cases": len(loads) + len(groups),
@@ -541,6 +749,9 @@ def run(R):
         "the model); property names are lower case, without '.', not starting with '_' and not numeric (Spec.keyOk)",
         "the order in which the loader visits variables is a Go map order; the model folds in enumeration order and "
         "c20_perm proves the order irrelevant, the harness repeats every load to sample map orders",
+        "the YAML reading of the text of an environment variable is taken from the real library (harness op yaml) and "
+        "handed to the decoding model; mapstructure's weak decoding is modelled for string/int/bool leaves and canonical "
+        "numerals, other combinations are compared between file and environment only",
         "schema/loader tables cover mechanism and cache types and the option names of the static configuration structs; "
         "the options inside a mechanism's `config` and value constraints (patterns, required) are not in the tables",
     ]
@@ -582,6 +793,21 @@ def replay(R, path):
         v = l2_verdict(base, rs[0][2], rs[0][3]) if is_tree(base) else "the complete file does not load"
         if v not in ("ok", "known"):
             R.violation("replay: " + v, {"kind": "cfg", "config": cfg, "case": case, "impl_complete_file": base, "impl_split": rs[0][2]})
+    elif kind == "leaf":
+        f, e = vlib.run_cases([exe], [p["file_case"], p["env_case"]])
+        fi, ei = leaf_field(f, p["field"]), leaf_field(e, p["field"])
+        print("from file       :", json.dumps(fi))
+        print("from environment:", json.dumps(ei), " (model:", json.dumps(p.get("model_env")), ")")
+        me = leaf_expect(p["type"], p.get("model_env"))
+        if ei != fi and not (p["type"] == "string" and me is not None and ei == me and fi == leaf_expect(p["type"], p.get("model_file"))):
+            R.violation("replay: the value arrives differently from file and environment", dict(p, impl_file=fi, impl_env=ei))
+        elif me is not None and ei != me:
+            R.violation("replay: the decoded value differs from the model", dict(p, impl_file=fi, impl_env=ei))
+    elif kind == "history":
+        v = history_verdict(exe, p["case"])
+        print("verdict:", v[0] if v else "every load equals its fresh-process twin, nothing changed afterwards")
+        if v:
+            R.violation("replay: " + v[0], {"kind": "history", "case": p["case"], "impl_history": v[2], "impl_fresh": v[3]})
     elif kind == "cfg-accepts-unknown":
         f = vlib.run_cases([exe], [gen_config.base_case(p["config"])])[0]
         print("from file:", json.dumps(f)[:200])
